@@ -101,8 +101,14 @@ class ValuesOfCorrectTypeChecker(ValidationVisitor):
             else None
         )
         if not isinstance(named_type, InputObjectType):
+            before = len(self.errors)
             self._check_scalar(node)
-            raise SkipNode()
+            if len(self.errors) > before:
+                # The literal is rejected as a whole: nothing more to report
+                # below it. An accepted literal (custom scalar) must stay
+                # visible to the other rules (variables, duplicate fields).
+                raise SkipNode()
+            return
 
         input_fields = [f.name.value for f in node.fields]
         for field_def in named_type.fields:
